@@ -20,7 +20,10 @@ RULE = ("G-tree: (1) every (current, relative) pair over the component alphabet 
         "included source file, in a rule body, literally in / substituted into an asm block, in a #fn body (called from the "
         "main file, as an operand, from a rule body) or as a #fn argument, x 6 directory layouts x 10-12 path spellings, "
         "same-named data files of different content in every directory; oracle = the path is resolved relative to the file "
-        "that textually contains the call (implementation vs specification only; rule matching is not in the C14 model).  non-trivial = distinct path pairs containing '..', "
+        "that textually contains the call (implementation vs specification only; rule matching is not in the C14 model); (6) bytes on disk: the real binary "
+        "reading files whose content puts text-layer markers (EF BB BF, FF FE, FE FF, CR LF, lone CR, LF, NUL, 0x1A, invalid and "
+        "4-byte UTF-8, truncated BOM) at the start / middle / end / alone / doubled, through incbin, incbinstr and inchexstr, whole-file "
+        "and ranged reads; oracle = the bytes on disk.  non-trivial = distinct path pairs containing '..', "
         "'.', an empty component, a backslash, a leading separator or <std>; distinct graphs with >= 1 include; "
         "distinct (content length, start, size) triples within 2 of a boundary")
 
@@ -647,6 +650,101 @@ def stream_realfs(chk, fnd, model):
             pass
 
 
+# --------------------------------------------------------------------------------------------- stream 6: bytes on disk
+def stream_realbytes(chk, fnd, model):
+    """incbin / incbinstr / inchexstr through the REAL binary and file server on files whose content looks like
+    text-layer markers; oracle = the bytes on disk (and the model on the same bytes)."""
+    quick = chk.tier == "quick"
+    exe = vlib.customasm_build(("debug",))["debug"]
+    fname = {"bin": "incbin", "binstr": "incbinstr", "hexstr": "inchexstr"}
+    base = os.path.join(vlib.CACHE, "c14_scratch", "bytes_%d_%d" % (chk.seed, os.getpid()))
+    shutil.rmtree(base, ignore_errors=True)
+    os.makedirs(base)
+    try:
+        contents = {"bin": G.marker_contents(b"AB\x01\x7f") + [b"", b"\xef\xbb\xbf"],
+                    "binstr": G.marker_contents(b"1011") + [b"10\r\n11\r\n", b"1 0\t1_1\n", b""],
+                    "hexstr": G.marker_contents(b"a5F0") + [b"a5\r\nF0\r\n", b"a_5 F\t0\n", b""]}
+        cases = []
+        for kind in ("bin", "binstr", "hexstr"):
+            for ci, c in enumerate(contents[kind]):
+                if kind == "bin":
+                    n = len(c)
+                else:
+                    n = len([ch for ch in c.decode("utf-8", "replace") if ch not in " \t\r\n_"])
+                args = G.marker_args(n)
+                if quick and kind != "bin":
+                    args = args[:6]
+                for a in args:
+                    cases.append((kind, ci, c, a))
+        files = {}
+        for kind in contents:
+            for ci, c in enumerate(contents[kind]):
+                with open(os.path.join(base, "%s%d.dat" % (kind, ci)), "wb") as fh:
+                    fh.write(c)
+        jobs = []
+        for idx, (kind, ci, c, a) in enumerate(cases):
+            src = '#d8 0x5a\n#d %s("%s%d.dat"%s)\n#d8 0xa5\n' % (fname[kind], kind, ci, "".join(", %d" % x for x in a))
+            with open(os.path.join(base, "p%d.asm" % idx), "w") as fh:
+                fh.write(src)
+            jobs.append("p%d.asm" % idx)
+
+        def runone(job):
+            try:
+                p = subprocess.run([exe, "-q", "-p", "-f", "binstr", job], cwd=base, stdout=subprocess.PIPE, stderr=subprocess.PIPE, timeout=60)
+                return p.returncode, p.stdout.decode("utf-8", "replace"), p.stderr.decode("utf-8", "replace")
+            except subprocess.TimeoutExpired:
+                return -99, "", "timeout"
+        with concurrent.futures.ThreadPoolExecutor(vlib.NCPU) as ex:
+            results = list(ex.map(runone, jobs))
+        mlines = ["B\t%s\t%s\t%s" % (kind, c.hex(), ",".join("%x" % x for x in a) if a else "-") for (kind, ci, c, a) in cases]
+        # the model decodes text itself; hand it only valid UTF-8 (Rust decodes lossily: U+FFFD is not a digit either)
+        mres = vlib.run_lines([model], [l if k == "bin" else "B\t%s\t%s\t%s" % (k, c.decode("utf-8", "replace").encode().hex(), l.split("\t")[3])
+                                        for l, (k, ci, c, a) in zip(mlines, cases)])
+        dist = {"ok": 0, "err": 0, "starts_with_bom": 0}
+        ndis = 0
+        for (kind, ci, c, a), (rc, so, se), ml in zip(cases, results, mres):
+            verdict, bits = G.spec_incfn(kind, c, a)
+            call = "%s(<file with bytes %s>%s)" % (fname[kind], c.hex() or "(empty)", "".join(", %d" % x for x in a))
+            rep = {"kind": "realbytes", "function": fname[kind], "content_hex": c.hex(), "args": [str(x) for x in a], "exit": rc,
+                   "stdout": so[-300:], "stderr": se[-300:], "model": ml, "reference": {"verdict": verdict, "bits": bits}}
+            chk.nontriv(("b", kind, c, a))
+            dist["starts_with_bom"] += c.startswith(b"\xef\xbb\xbf")
+            out = so.strip()
+            if rc == 0 and out.startswith("01011010") and out.endswith("10100101") and len(out) >= 16:
+                got = ("OK", out[8:-8])
+            elif rc == 1:
+                got = ("ERR", None)
+            else:
+                fnd.add("?crash", "%s on the real file system: exit %s output %r" % (call, rc, out[:80]), rep)
+                continue
+            dist["ok" if got[0] == "OK" else "err"] += 1
+            m = ml.split("\t")
+            mod = ("OK", m[1] if len(m) > 1 else "") if m[0] == "OK" else (m[0], None)
+            bad = None
+            if verdict == "OK" and got != ("OK", bits):
+                bad = "%s read from disk gave %s; the requested units of the bytes on disk are %r" % (call, got, bits)
+            elif verdict == "ERR" and got[0] != "ERR":
+                bad = "%s read from disk accepted (%s) although the range is past the end / the content is invalid" % (call, got[1])
+            elif verdict == "EITHER" and got not in (("ERR", None), ("OK", "")):
+                bad = "%s read from disk gave %s for an empty range at the end" % (call, got)
+            if bad:
+                fnd.add("?realbytes", bad, rep, prio=0 if got[0] == "OK" else 1)
+            elif got != mod:
+                ndis += 1
+                rep["theorems"] = ["C14_incbin", "C14_incbinstr", "C14_inchexstr", "C14_real_lookup_verbatim"]
+                fnd.add("?corr-realbytes", "model/implementation correspondence broken for %s on the real file system: impl %s model %s" % (call, got, mod),
+                        rep, found=False)
+        chk.count("realbytes", len(cases), **dist)
+        chk.cov["traces_validated_against_impl"] += len(cases)
+        chk.cov["disagreements_checked"] += ndis
+    finally:
+        shutil.rmtree(base, ignore_errors=True)
+        try:
+            os.rmdir(os.path.join(vlib.CACHE, "c14_scratch"))
+        except OSError:
+            pass
+
+
 def run(chk):
     chk.rule = RULE
     chk.prove()
@@ -659,6 +757,7 @@ def run(chk):
     stream_incfns(chk, fnd, bins, model)
     stream_callsites(chk, fnd, bins)
     stream_realfs(chk, fnd, model)
+    stream_realbytes(chk, fnd, model)
     fnd.flush()
 
 
@@ -690,6 +789,27 @@ def replay(chk, rep):
             r["root"], r["function"], r["path"], r["call_written_in"],
             ("OK bytes " + " ".join("%02x" % b for b in bits_to_ids(f[1] if len(f) > 1 else ""))) if f[0] == "OK" else out,
             r.get("impl"), r.get("expected") or "an error"))
+    elif kind == "realbytes":
+        exe = vlib.customasm_build(("debug",))["debug"]
+        base = os.path.join(vlib.CACHE, "c14_scratch", "replay_%d" % os.getpid())
+        shutil.rmtree(base, ignore_errors=True)
+        os.makedirs(base)
+        try:
+            with open(os.path.join(base, "f.dat"), "wb") as fh:
+                fh.write(bytes.fromhex(r["content_hex"]))
+            src = '#d8 0x5a\n#d %s("f.dat"%s)\n#d8 0xa5\n' % (r["function"], "".join(", " + x for x in r["args"]))
+            with open(os.path.join(base, "m.asm"), "w") as fh:
+                fh.write(src)
+            pr = subprocess.run([exe, "-q", "-p", "-f", "binstr", "m.asm"], cwd=base, stdout=subprocess.PIPE, stderr=subprocess.STDOUT)
+            print("f.dat on disk (hex): %s\n--- m.asm\n%scommand: customasm -q -p -f binstr m.asm\nimplementation now: exit %s %s\nrecorded: exit %s %r\n"
+                  "reference (units of the bytes on disk, between the 01011010 / 10100101 frame): %s" % (
+                      r["content_hex"] or "(empty)", src, pr.returncode, pr.stdout.decode("utf-8", "replace").strip()[-400:], r.get("exit"), r.get("stdout"), r.get("reference")))
+        finally:
+            shutil.rmtree(base, ignore_errors=True)
+            try:
+                os.rmdir(os.path.join(vlib.CACHE, "c14_scratch"))
+            except OSError:
+                pass
     elif kind == "incfn":
         a = [int(x) for x in r["args"]]
         prog = '#d %s("f.dat"%s)\n#d8 0xa5\n' % (r["function"], "".join(", %d" % x for x in a))
